@@ -467,6 +467,11 @@ func (b *builder) txtLine(name string, wild bool, loc string) {
 	default:
 		txt = fmt.Sprintf("text-%d", b.rng.Intn(1000))
 	}
+	b.txtWith(name, wild, loc, txt)
+}
+
+// txtWith declares one TXT record with the given text.
+func (b *builder) txtWith(name string, wild bool, loc string, txt string) {
 	var rd []byte
 	for s := txt; len(s) > 0; {
 		n := len(s)
